@@ -226,6 +226,12 @@ def unfiltered_rule(ctx: Ctx, rid: str) -> None:
     ctx.floor(rid, n, 2, "reachability propagation calls")
 
 
+def copy_with_test(n: ast.AST, test: ast.AST) -> ast.AST:
+    if isinstance(n, ast.If):
+        return ast.If(test=test, body=n.body, orelse=n.orelse)
+    return ast.IfExp(test=test, body=n.body, orelse=n.orelse)
+
+
 def rule_r3(ctx: Ctx) -> None:
     prog = ctx.prog
     init = prog.get_function(f"{GRAMMAR_MOD}:Grammar.__init__")
@@ -258,8 +264,22 @@ def rule_r3(ctx: Ctx) -> None:
     def is_zero(e: Optional[ast.AST]) -> bool:
         return isinstance(e, ast.Constant) and e.value == 0 and not isinstance(e.value, bool)
 
+    def expand(g: FunctionInfo, test: ast.AST) -> ast.AST:
+        """replace local names in a test by the (single) expression they are assigned"""
+        class R(ast.NodeTransformer):
+            def visit_Name(self, node):
+                ds = [a for a in walk_local(g.node, include_nested=True) if isinstance(a, ast.Assign) and len(a.targets) == 1
+                      and isinstance(a.targets[0], ast.Name) and a.targets[0].id == node.id]
+                if len(ds) == 1 and isinstance(node.ctx, ast.Load) and any(isinstance(x, ast.Compare) for x in ast.walk(ds[0].value)):
+                    return ds[0].value
+                return node
+        import copy
+        return R().visit(copy.deepcopy(test))
+
     for g in fns:
         for n in walk_local(g.node, include_nested=True):
+            if isinstance(n, (ast.If, ast.IfExp)):
+                n = copy_with_test(n, expand(g, n.test))
             if isinstance(n, ast.If):
                 names = base_names(n.test)
                 sets0 = any((isinstance(a, ast.Assign) and is_zero(a.value)) or (isinstance(a, ast.Return) and is_zero(a.value)) for a in n.body)
